@@ -262,6 +262,24 @@ func (g *v14HdrGen) fields(n int, pool []string, prefix string, budget int64) []
 	return out
 }
 
+// v14DropLargest removes the largest generated ("x-…") field; false when there is none.
+func v14DropLargest(hs *[]v14Hdr) bool {
+	best, bestSize := -1, int64(-1)
+	for i, h := range *hs {
+		if k := strings.ToLower(h.K); !strings.HasPrefix(k, "x-") || k == "x-v14-id" {
+			continue
+		}
+		if n := v14ListSize([]v14Hdr{h}); n > bestSize {
+			best, bestSize = i, n
+		}
+	}
+	if best < 0 {
+		return false
+	}
+	*hs = append((*hs)[:best], (*hs)[best+1:]...)
+	return true
+}
+
 func v14ListSize(hs []v14Hdr) int64 {
 	var n int64
 	for _, h := range hs {
@@ -733,6 +751,19 @@ func v14GenExch(rng *rand.Rand, cf *v14Conf, idx, wave int, flavor string, maxBo
 				e.RespTrHdr = append(e.RespTrHdr, strings.Join(cur, ", "))
 			}
 			e.RespHdr = append(e.RespHdr, v14Hdr{K: "Trailer", V: e.RespTrHdr})
+		}
+	}
+
+	// the special fields and the trailer announcement were added on top of the budget: trim
+	// generic fields until the sets are within the limits again
+	for v14ReqWireSize(e, cf) > limit {
+		if !v14DropLargest(&e.ReqHdr) {
+			break
+		}
+	}
+	for v14ListSize(e.RespHdr)+400 > rlimit {
+		if !v14DropLargest(&e.RespHdr) {
+			break
 		}
 	}
 
